@@ -30,7 +30,7 @@ def build(rr):
     if kind in ('smtp', 'lmtp'):
         from . import rdrv
         run = rdrv.RelayRun(kind == 'lmtp', rr.get('pipelining', True), rr['scripts'], pool_size=rr.get('pool_size'),
-                            idle_timeout=rr.get('idle'))
+                            idle_timeout=rr.get('idle'), connect=rr.get('connect'))
 
         def closer():
             run.relay.kill()
